@@ -238,10 +238,22 @@ class QModel:
         for bi, t in body.calls():
             if body.blocks[bi]['cleanup'] or not is_call(t):
                 continue
+            direct, nested = [], []
             for a in norm(T.call_term(bi))[2]:
+                d = a
+                while d[0] in ('unsize', 'conv', 'ref', 'mutated') or (d[0] == 'call' and isinstance(d[1], str) and len(d[2]) == 1 and
+                                                                         d[1].endswith(('Box::new', 'Arc::new'))):
+                    d = d[1] if d[0] != 'call' else d[2][0]
+                if d[0] == 'closure' and d[1] in self.cad.bodies:
+                    direct.append(self.cad.bodies[d[1]])
+                    continue
+                # a closure buried in the computation of another argument (`cap.filter(|..| ..)`) is not the one handed over
                 for y in walk(a):
-                    if y[0] == 'closure' and y[1] in self.cad.bodies and self.cad.bodies[y[1]] not in out:
-                        out.append(self.cad.bodies[y[1]])
+                    if y[0] == 'closure' and y[1] in self.cad.bodies:
+                        nested.append(self.cad.bodies[y[1]])
+            for x in (direct or nested):
+                if x not in out:
+                    out.append(x)
         return out
 
     def _getter_field(self, name):
